@@ -170,7 +170,45 @@ def m_dt_sub(I, path, args):
         return mk_dt(secs, a.fields[1])
     if b.name == 'DateTime' and sign == -1:
         return Adt('TimeDelta', 0, [a.fields[0] - b.fields[0], 0])
+    if b.name == 'Months':
+        return _shift_months(I, a, sign * b.fields[0], panic=True)
     raise Unsupported('DateTime arithmetic ' + path)
+
+
+def _shift_months(I, a, months, panic):
+    """calendar arithmetic (chrono: same day of month clamped to the month's length, time of day kept).  The instant is
+    made concrete first (representative instants spread over the harness range: calendar arithmetic is not encoded
+    symbolically); cover note 'calendar arithmetic on representative instants'"""
+    import datetime
+    secs = a.fields[0]
+    if not isinstance(secs, int):
+        reps = [86400 * d + 3600 * 13 for d in (59, 365 + 240, 11323, 17956, 19624, 20723, 30000, 45000)]
+        I.ctx.cover('calendar arithmetic on representative instants')
+        secs = I.ctx.concretize(secs, reps)
+    if not isinstance(months, int):
+        raise Unsupported('symbolic number of months')
+    d = datetime.datetime(1970, 1, 1) + datetime.timedelta(seconds=secs)
+    y, m0 = divmod(d.year * 12 + (d.month - 1) + months, 12)
+    import calendar
+    if not (1 <= y <= 9999):
+        if panic:
+            raise Panic('DateTime +/- Months overflowed')
+        return NONE()
+    day = min(d.day, calendar.monthrange(y, m0 + 1)[1])
+    r = d.replace(year=y, month=m0 + 1, day=day)
+    out = mk_dt(int((r - datetime.datetime(1970, 1, 1)).total_seconds()), a.fields[1])
+    return out if panic else Some(out)
+
+
+@R.model(r'^Months::new$', r'^chrono::Months::new$')
+def m_months_new(I, path, args):
+    return Adt('Months', 0, [args[0]])
+
+
+@R.model(r'^DateTime::(checked_sub_months|checked_add_months)$')
+def m_dt_checked_months(I, path, args):
+    a, b = deref1(args[0]), deref1(args[1])
+    return _shift_months(I, a, (-1 if 'sub' in path else 1) * b.fields[0], panic=False)
 
 
 @R.model(r'^SystemTime::now$', r'^std::time::SystemTime::now$')
